@@ -85,17 +85,30 @@ def inspectors_of(w):
     return w.__dict__[k] if k else []
 
 
+_SLOT_NAMES = {}
+
+
 def attrs_of(o):
     """(name, value) of every instance attribute, for objects with a __dict__, with
     __slots__ (anywhere in the class hierarchy), or both."""
+    t = type(o)
+    names = _SLOT_NAMES.get(t)
+    if names is None:
+        names = []
+        for cls in t.__mro__:
+            sl = cls.__dict__.get('__slots__', ())
+            for name in ((sl,) if isinstance(sl, str) else sl or ()):
+                if isinstance(name, str) and name not in ('__dict__', '__weakref__'):
+                    names.append(name)
+        names = _SLOT_NAMES[t] = tuple(names)
+    if not names:
+        return getattr(o, '__dict__', {})
     out = {}
-    for cls in type(o).__mro__:
-        for name in getattr(cls, '__slots__', ()) or ():
-            if isinstance(name, str) and name not in ('__dict__', '__weakref__') and hasattr(o, name):
-                try:
-                    out[name] = getattr(o, name)
-                except AttributeError:
-                    pass
+    for name in names:
+        try:
+            out[name] = getattr(o, name)
+        except AttributeError:
+            pass
     out.update(getattr(o, '__dict__', {}))
     return out
 
